@@ -12,7 +12,9 @@ import (
 	"time"
 	"unsafe"
 
+	"github.com/netsampler/goflow2/v2/metrics"
 	"github.com/netsampler/goflow2/v2/utils"
+	"github.com/prometheus/client_golang/prometheus"
 	"github.com/netsampler/goflow2/v2/utils/debug"
 )
 
@@ -69,7 +71,30 @@ func (t *udpTrace) counts() (r, e, d int) {
 
 type dropCB struct{ t *udpTrace }
 
+// the callback cmd/goflow2 installs (metrics/receiver.go): called next to the recording one, its counter is read back
+var promDrop = metrics.NewReceiverMetric()
+
+// sum of goflow2_flow_dropped_packets_total and ..._bytes_total over all label sets
+func dropMetrics() (pkts, byts float64) {
+	mfs, err := prometheus.DefaultGatherer.Gather()
+	if err != nil {
+		return -1, -1
+	}
+	for _, mf := range mfs {
+		for _, m := range mf.GetMetric() {
+			switch mf.GetName() {
+			case "goflow2_flow_dropped_packets_total":
+				pkts += m.GetCounter().GetValue()
+			case "goflow2_flow_dropped_bytes_total":
+				byts += m.GetCounter().GetValue()
+			}
+		}
+	}
+	return
+}
+
 func (c dropCB) Dropped(m utils.Message) {
+	promDrop.Dropped(m)
 	id, ok := checkDatagram(m.Payload)
 	var bp uintptr
 	if len(m.Payload) > 0 {
@@ -181,6 +206,7 @@ func init() {
 			return nil
 		}
 		_ = blockedOnce
+		dropP0, dropB0 := dropMetrics()
 		cfg := &utils.UDPReceiverConfig{Sockets: sockets, Workers: workers, QueueSize: queue, Blocking: blocking, ReceiverCallback: dropCB{tr}}
 		recv, err := utils.NewUDPReceiver(cfg)
 		if err != nil {
@@ -248,6 +274,16 @@ func init() {
 		t.N(uint64(queue))
 		t.N(b2u(blocking))
 		tr.tokens(&t)
+		// the Prometheus drop counters moved by exactly the drops of this run (packets; bytes = sum of their sizes)
+		{
+			p1, b1 := dropMetrics()
+			_, _, d := tr.counts()
+			if int(p1-dropP0+0.5) == d && (d > 0) == (b1-dropB0 > 0) {
+				t.S("dropmetricok")
+			} else {
+				t.S(fmt.Sprintf("dropmetricBAD%d/%d", int(p1-dropP0+0.5), d))
+			}
+		}
 		select {
 		case err := <-stopped:
 			if err != nil {
